@@ -165,6 +165,16 @@ class Frame:
         self.f_lineno = 0
         self.cls = None               # defining class for zero-arg super()
 
+    # as CPython: every read of frame.f_lineno builds a NEW int object (identical objects only for the small cached
+    # ints up to 256), so code that compares line numbers with `is` behaves here as it does there
+    @property
+    def f_lineno(self):
+        return int(str(self._lineno))
+
+    @f_lineno.setter
+    def f_lineno(self, v):
+        self._lineno = v
+
     @property
     def f_locals(self):
         return self.locals if self.kind != "module" else self.module.__dict__
